@@ -1,7 +1,291 @@
-/-  C08/Driver — line protocol front end (core-only).  Placeholder until the property is built. -/
-import OttoVerif.Base.Proto
-namespace OttoVerif.C08.Driver
+/-
+  C08/Driver — line protocol front end (core-only).
 
-def handle (_ws : List String) : String := "bad-op"
+  idx k<hex>                         stringToArrayIndex on the bytes
+  range <val> <len> <0|1>            valueToRangeIndex(val, len, negativeIsZero)
+  h a=<elems> p=<protos> <step>…     a history on one receiver; reply = per-step outcomes + final dump
+
+  value tokens   u n T F d<16 hex> s<hex bytes> R(receiver) ; `_` = hole in an element list
+  key tokens     k<hex bytes>
+  steps          put/<key>/<val>  del/<key>  def/<key>/<val|->/<w>/<e>/<c> (w,e,c ∈ 0 1 -)
+                 frz  seal  noext  new/<val>
+                 call/<method>/<args,…>/<callback returns,…>
+-/
+import OttoVerif.Base.Proto
+import OttoVerif.Base.ParseNumber
+import OttoVerif.C08.Spec
+namespace OttoVerif.C08.Driver
+open OttoVerif.F64 OttoVerif.Proto OttoVerif.C08
+
+/-- ToString on the primitives the generators use (numbers: integers below 2^53, NaN, ±Infinity). -/
+def numToBytes (x : FV) : List Nat :=
+  match x with
+  | .nan => [78, 97, 78]
+  | .inf s => (if s then [45] else []) ++ [73, 110, 102, 105, 110, 105, 116, 121]
+  | .fin s m e =>
+    if m = 0 then [48]
+    else if isIntegral m e then (if s then [45] else []) ++ dec (truncAbs m e)
+    else [63]     -- not generated
+
+def valToBytes (v : Val) : List Nat :=
+  match v with
+  | .undef => [117, 110, 100, 101, 102, 105, 110, 101, 100]
+  | .null => [110, 117, 108, 108]
+  | .bool true => [116, 114, 117, 101]
+  | .bool false => [102, 97, 108, 115, 101]
+  | .int i => (if i < 0 then [45] else []) ++ dec i.natAbs
+  | .num x => numToBytes x
+  | .str s => s
+  | .recv => [63]
+
+def env : Env := { pn := OttoVerif.PN.parseNumber, ts := valToBytes }
+
+/-! ### parsing -/
+
+def val? (t : String) : Option Val :=
+  match t.toList with
+  | ['u'] => some .undef
+  | ['n'] => some .null
+  | ['T'] => some (.bool true)
+  | ['F'] => some (.bool false)
+  | ['R'] => some .recv
+  | 'd' :: r => (f64? (String.ofList r)).map .num
+  | 's' :: r => (bytes? (String.ofList r)).map .str
+  | _ => none
+
+/-- key bytes ↦ Key: "length", canonical decimal numerals, everything else -/
+def keyOfBytes (b : List Nat) : Key :=
+  if b = lengthBytes then .length
+  else
+    let canon : Bool := match b with
+      | [] => false
+      | c :: r => (c ≠ 48 || r.isEmpty) && b.all (fun c => 48 ≤ c && c ≤ 57)
+    if canon then .idx (b.foldl (fun a c => a * 10 + (c - 48)) 0) else .name b
+
+def key? (t : String) : Option Key :=
+  match t.toList with
+  | 'k' :: r => (bytes? (String.ofList r)).map keyOfBytes
+  | _ => none
+
+def tri? (t : String) : Option (Option Bool) :=
+  if t = "1" then some (some true) else if t = "0" then some (some false) else if t = "-" then some none else none
+
+def splitList (t : String) : List String := if t.isEmpty then [] else t.splitOn ","
+
+def elems? (t : String) : Option (List (Option Val)) :=
+  (splitList t).mapM (fun e => if e = "_" then some none else (val? e).map some)
+
+def vals? (t : String) : Option (List Val) := (splitList t).mapM val?
+
+def protos? (t : String) : Option (List (Nat × Val)) :=
+  (splitList t).mapM (fun e => match e.splitOn ":" with
+    | [i, v] => do let i ← i.toNat?; let v ← val? v; pure (i, v)
+    | _ => none)
+
+/-! ### printing -/
+
+def valOut : Val → String
+  | .undef => "u" | .null => "n"
+  | .bool b => if b then "T" else "F"
+  | .int i => "d" ++ f64Out (ofInt i)
+  | .num x => "d" ++ f64Out x
+  | .str s => "s" ++ bytesOut s
+  | .recv => "R"
+
+def b01 (b : Bool) : String := if b then "1" else "0"
+
+def retOut : Ret → String
+  | .val v => valOut v
+  | .arr es => "[" ++ ",".intercalate (es.map fun e => match e with | some v => valOut v | none => "_") ++ "]"
+
+def insertSorted {α : Type} (lt : α → α → Bool) (x : α) : List α → List α
+  | [] => [x]
+  | y :: r => if lt x y then x :: y :: r else y :: insertSorted lt x r
+
+def sortBy {α : Type} (lt : α → α → Bool) (l : List α) : List α := l.foldr (insertSorted lt) []
+
+def dump (o : Obj) : String :=
+  let lenP := lookup .length o.props
+  let idxs := o.props.filterMap fun (k, p) => match k with | .idx n => some (n, p) | _ => none
+  let names := o.props.filterMap fun (k, p) => match k with | .name s => some (bytesOut s, p) | _ => none
+  let pOut (p : PropD) : String := valOut p.v ++ b01 p.w ++ b01 p.e ++ b01 p.c
+  let is := (sortBy (fun a b => a.1 < b.1) idxs).map fun (n, p) => "i" ++ toString n ++ "=" ++ pOut p
+  let ns := (sortBy (fun a b => a.1 < b.1) names).map fun (s, p) => "n" ++ s ++ "=" ++ pOut p
+  "L" ++ (match lenP with | some p => valOut p.v ++ "w" ++ b01 p.w | none => "-")
+    ++ "x" ++ b01 o.ext ++ "{" ++ ";".intercalate (is ++ ns) ++ "}"
+
+def errOut : Err → String
+  | .type => "ETypeError"
+  | .range => "ERangeError"
+
+/-! ### one side (model or spec) of the object layer and of the methods -/
+
+structure Side where
+  put : Key → Val → Bool → M Obj Unit
+  del : Key → Bool → M Obj Bool
+  define : Key → Desc → Bool → M Obj Bool
+  newLen : Val → Option Nat
+  ops : Ops St
+  method : String → List Val → Option (M St Ret)
+
+def modelMethod (name : String) (args : List Val) : Option (M St Ret) :=
+  let O := modelOps env
+  match name with
+  | "push" => some (push O args)
+  | "pop" => some (pop O)
+  | "shift" => some (shift O)
+  | "unshift" => some (unshift O args)
+  | "slice" => some (slice O env args)
+  | "indexOf" => some (indexOf O env args)
+  | _ => none
+
+def specMethod (name : String) (args : List Val) : Option (M St Ret) :=
+  let O := Spec.specOps env
+  match name with
+  | "push" => some (Spec.push O args)
+  | "pop" => some (Spec.pop O)
+  | "shift" => some (Spec.shift O)
+  | "unshift" => some (Spec.unshift O args)
+  | "slice" => some (Spec.slice O env args)
+  | "indexOf" => some (Spec.indexOf O env args)
+  | _ => none
+
+def modelSide : Side :=
+  { put := objectPut env, del := objectDelete, define := defineOwnProperty env,
+    newLen := arrayUint32 env, ops := modelOps env, method := modelMethod }
+
+def specSide : Side :=
+  { put := Spec.put env, del := Spec.delete, define := Spec.defineOwn env,
+    newLen := Spec.lengthOf env, ops := Spec.specOps env, method := specMethod }
+
+/-- Object.freeze / Object.seal / Object.preventExtensions: set-up primitives (C07's subject),
+    the same direct state change on both sides. -/
+def freezeObj (o : Obj) : Obj :=
+  { o with ext := false, props := o.props.map fun (k, p) => (k, { p with w := false, c := false }) }
+def sealObj (o : Obj) : Obj :=
+  { o with ext := false, props := o.props.map fun (k, p) => (k, { p with c := false }) }
+
+def logOut (log : List (List Val)) : String :=
+  if log.isEmpty then "" else "~" ++ ";".intercalate (log.reverse.map fun a => ",".intercalate (a.map valOut))
+
+/-- run one step; returns the outcome token and the new object -/
+def step (S : Side) (o : Obj) (t : String) : Option (String × Obj) :=
+  match t.splitOn "/" with
+  | ["put", k, v] => do
+    let k ← key? k; let v ← val? v
+    match S.put k v false o with
+    | .ok _ o' => pure ("ok", o')
+    | .err e o' => pure (errOut e, o')
+  | ["del", k] => do
+    let k ← key? k
+    match S.del k false o with
+    | .ok b o' => pure (if b then "T" else "F", o')
+    | .err e o' => pure (errOut e, o')
+  | ["def", k, v, w, e, c] => do
+    let k ← key? k
+    let v ← if v = "-" then some none else (val? v).map some
+    let w ← tri? w; let e ← tri? e; let c ← tri? c
+    match S.define k ⟨v, w, e, c⟩ true o with
+    | .ok _ o' => pure ("ok", o')
+    | .err e o' => pure (errOut e, o')
+  | ["frz"] => pure ("ok", freezeObj o)
+  | ["seal"] => pure ("ok", sealObj o)
+  | ["noext"] => pure ("ok", { o with ext := false })
+  | ["new", v] => do
+    let v ← val? v
+    match v with
+    | .num _ => match S.newLen v with
+      | some n => pure ("L" ++ toString n, o)
+      | none => pure ("ERangeError", o)
+    | _ => pure ("L1", o)
+  | ["call", m, args, rets] => do
+    let args ← vals? args; let rets ← vals? rets
+    let f ← S.method m args
+    match f { o := o, rets := rets } with
+    | .ok r s => pure (retOut r ++ logOut s.log, s.o)
+    | .err e s => pure (errOut e ++ logOut s.log, s.o)
+  | _ => none
+
+def runSteps (S : Side) : Obj → List String → List String → Option (List String × Obj)
+  | o, [], acc => some (acc.reverse, o)
+  | o, t :: ts, acc => do
+    let (r, o') ← step S o t
+    runSteps S o' ts (r :: acc)
+
+def initObj (es : List (Option Val)) (ps : List (Nat × Val)) : Obj :=
+  let props : List (Key × PropD) := (Key.length, ⟨.int es.length, true, false, false⟩) ::
+    ((List.range es.length).zip es).filterMap fun (i, e) => e.map fun v => (Key.idx i, ⟨v, true, true, true⟩)
+  { isArr := true, ext := true, props := props, proto := ps }
+
+def runHist (S : Side) (o : Obj) (steps : List String) : String :=
+  match runSteps S o steps [] with
+  | some (rs, o') => "|".intercalate (rs ++ [dump o'])
+  | none => "bad-step"
+
+/-! ### deviation regions: decidable predicates on the request -/
+
+def addDev (acc : List String) (d : String) : List String := if acc.contains d then acc else acc ++ [d]
+
+/-- regions of one step, evaluated on the object the *model* has reached before the step -/
+def stepDev (o : Obj) (t : String) : List String :=
+  match t.splitOn "/" with
+  | "put" :: k :: _ | "def" :: k :: _ =>
+    match key? k with
+    | some (.name s) => if o.isArr ∧ stringToArrayIndexRaw s ≥ 0 then ["index_noncanonical"] else []
+    | _ => []
+  | ["call", "slice", args, _] =>
+    match vals? args with
+    | some args =>
+      let O := modelOps env
+      let s : St := { o := o }
+      let (a, b) := rangeStartEnd env args (O.len s)
+      if (List.range (b - a).toNat).any (fun j => !O.has s (a.toNat + j)) then ["hole_to_undefined"] else []
+    | none => []
+  | _ => []
+
+def histDev (o : Obj) (steps : List String) : List String :=
+  (steps.foldl (fun (acc : List String × Obj) t =>
+    let ds := (stepDev acc.2 t).foldl addDev acc.1
+    match step modelSide acc.2 t with
+    | some (_, o') => (ds, o')
+    | none => (ds, acc.2)) ([], o)).1
+
+def devOut (ds : List String) : String := if ds.isEmpty then "-" else ",".intercalate ds
+
+def reply (m s dev : String) : String := m ++ " " ++ s ++ " " ++ dev
+
+def stripPrefix (p : String) (t : String) : Option String :=
+  if t.startsWith p then some (t.drop p.length).toString else none
+
+def handle (ws : List String) : String :=
+  match ws with
+  | ["idx", k] =>
+    match k.toList with
+    | 'k' :: r =>
+      match bytes? (String.ofList r) with
+      | some b =>
+        let m := stringToArrayIndexRaw b
+        let s : Int := match Spec.arrayIndex? b with | some n => n | none => -1
+        reply (toString m) (toString s) (if m ≥ 0 ∧ (Spec.arrayIndex? b).isNone then "index_noncanonical" else "-")
+      | none => "bad-op"
+    | _ => "bad-op"
+  | ["range", v, len, nz] =>
+    match val? v, len.toNat? with
+    | some v, some len =>
+      let m := valueToRangeIndex env v len (nz = "1")
+      let s : Nat :=
+        if nz = "1" then
+          (match Spec.toInteger env v with
+            | .ninf => 0 | .pinf => len | .fin i => if i < 0 then 0 else if i < len then i.toNat else len)
+        else Spec.relIndex (Spec.toInteger env v) len
+      reply (toString m) (toString s) "-"
+    | _, _ => "bad-op"
+  | "h" :: a :: p :: steps =>
+    match (stripPrefix "a=" a).bind elems?, (stripPrefix "p=" p).bind protos? with
+    | some es, some ps =>
+      let o := initObj es ps
+      reply (runHist modelSide o steps) (runHist specSide o steps) (devOut (histDev o steps))
+    | _, _ => "bad-op"
+  | _ => "bad-op"
 
 end OttoVerif.C08.Driver
